@@ -153,6 +153,8 @@ def symmetric_extension_hierarchy(
     # The variable `states` is provided as a list of vectors. Transform them
     # into density matrices.
     if n_cols == 1:
+        # Do not overwrite the entries of the caller's list.
+        states = list(states)
         for i, state_ket in enumerate(states):
             states[i] = state_ket @ state_ket.conj().T
 
